@@ -452,8 +452,10 @@ class XsdGroup(XsdComponent, MutableSequence[ModelParticleType],
         return self.overall_min_occurs(particle) == 0
 
     def is_missing(self, occurs: OccursCounterType) -> bool:
+        if self.is_emptiable():
+            return False  # missing occurrences are matched by the empty content
         value = occurs[self.oid] or occurs[self]
-        return not self.is_emptiable() if value == 0 else self.min_occurs > value
+        return value == 0 or self.min_occurs > value
 
     def get_expected(self, occurs: OccursCounterType) -> list[SchemaElementType]:
         """
